@@ -57,6 +57,10 @@ class Monitor:
             for val in self.values:
                 evs.append(["send", list(k), val])
         n0, c0 = self.nodes[0], self.children[0]
+        if self.cfg.get("twins"):
+            # an internal command that may carry any child id (an id response), same node / child / type number as a set key
+            k0 = self.keys[0]
+            evs.append(["send-internal", [k0[0], k0[1], k0[2]], "9"])
         for n in self.nodes:
             wl = wake_line(v, n)
             if wl:
@@ -89,7 +93,23 @@ class Monitor:
         def bad(k, what):
             viols.append((f"C07|{k}|{v}", f"[{v}] {what}", None))
 
-        if kind == "send":
+        if kind == "send-internal":
+            n, c, t = ev[1]
+            key = (n, c, 1000 + t)  # internal commands live in a key space of their own
+            line = R.enc(n, c, 3, 0, t, ev[2])
+            out = s.send(Message(n, c, 3, 0, t, ev[2]))
+            self.last_desc = out.describe()
+            if out.kind != "return":
+                bad("send-raised", f"send of {line!r} raised {type(out.exc).__name__}")
+            if self.sleeping[n] and not out.attempts:
+                self.nontrivial = True
+                self.buffer[key] = line  # held like a set command (C12): released at the wake, and must not displace one
+                self.stale.discard(key)
+            elif out.writes != [line]:
+                bad("send-awake-not-written", f"internal command for node {n}: expected write {line!r}, got {out.writes}")
+            else:
+                self.buffer.pop(key, None)  # written now: supersedes what was parked for the same key
+        elif kind == "send":
             n, c, t = ev[1]
             key = (n, c, t)
             val = ev[2]
@@ -107,8 +127,9 @@ class Monitor:
             else:
                 if out.writes != [line]:
                     bad("send-awake-not-written", f"set for awake node {n}: expected write {line!r}, got {out.writes}")
-                if key in self.buffer:
-                    self.stale.add(key)
+                # the value written now is the most recently sent one: an older value still parked for the same key (from
+                # before the node presented itself again) must not be released after it
+                self.buffer.pop(key, None)
         elif kind == "wake":
             n = ev[1]
             out = s.line(wake_line(v, n))
@@ -203,6 +224,11 @@ def configs(ctx: core.Ctx) -> list:
         cfgs.append({"version": "2.1" if v == "2.2" else v, "node_type": 18, "keys": [[1, 3, 2], [2, 3, 2]], "values": ["a", "b"], "sleep": [True, True]})
         # ids one of which is a decimal prefix of the other (25 / 254), child ids likewise (2 / 25)
         cfgs.append({"version": v, "nodes": [25, 254], "children": [2, 25], "keys": [[25, 2, 2], [254, 25, 2]] if ctx.quick else [[25, 2, 2], [254, 25, 2], [254, 2, 25]], "values": ["a", "b"], "sleep": [True, True]})
+    # a set key and an internal command with the same node / child / type number (4 = V_PRESSURE / I_ID_RESPONSE)
+    cfgs.append({"version": "2.2", "keys": [[1, 3, 4], [1, 3, 2]], "values": ["a", "b"], "sleep": [True, True], "twins": True})
+    # value types the active protocol has no name for (47 under 1.x, 60 everywhere): still a set command
+    cfgs.append({"version": "1.4", "keys": [[1, 3, 47], [1, 3, 2]], "values": ["a", "b"], "sleep": [True, False]})
+    cfgs.append({"version": "2.1", "keys": [[1, 3, 60], [2, 3, 47]], "values": ["a", "b"], "sleep": [True, True]})
     # nodes whose own library version differs from the gateway's (newer, older, not a version at all)
     for v, nvs in (("2.1", ["2.3.2", "1.4"]), ("2.2", ["2.0"])) if ctx.quick else (("2.0", ["2.2", "2.3.2", "1.4", ""]), ("2.1", ["2.2.0", "2.3.2", "1.5", "junk"]), ("2.2", ["2.0", "2.1.1", "1.4"])):
         for nv in nvs:
@@ -290,7 +316,7 @@ def run(ctx: core.Ctx) -> core.Report:
         assumptions=[
             "sequential semantics (concurrent send vs flush is C09), plus a timeout pass: the wait that handles the wake is cancelled during a release write (three scenarios, every position, <= 1 early firing)",
             "1.x sleeping flag set directly on the Node (public attribute), as a loaded persistence file would",
-            "a parked command made stale by re-presentation + direct write of a newer value may or may not be released (statement is silent)",
+            "a parked command superseded by a direct write of a newer value (the node presented itself again and is awake) must not be released at the next wake: the wake carries the most recently sent value",
         ],
     )
 
